@@ -49,13 +49,13 @@ def run(ctx):
         f.write('SPECIFICATION MCSpec\nCONSTANTS\n  Mode = "pairs"\nINVARIANT Export\nCHECK_DEADLOCK FALSE\n')
     rg = ctx.tlc_expect_ok("MC_Header", cfg, workers=1, count=False, tag="export-lattice")
     rows = [json.loads(core.parse_printed(l)[1]) for l in rg.printed]
-    if len(rows) < 72000:
+    if len(rows) < 70000:
         raise core.MachineryError(f"lattice export incomplete: {len(rows)}")
     step = 1 if not q else 8
     datacache = {}
     for i, row in enumerate(rows):
         if i % step and row["n"] > 1000:
-            continue    # quick tier: one third of the large-data rows
+            continue    # quick tier: one eighth of the large-data rows
         f, n = row["f"], row["n"]
         data = datacache.setdefault(n, bytes((j * 7 + 3) % 256 for j in range(max(n, 0))))
         ok, h, acc, fr, exc = create(packets, f, n, data)
@@ -90,7 +90,8 @@ def run(ctx):
         f = {k: rng.randint(0, m) for k, m in zip(KEYS, (7, 1, 1, 2047, 3, 16383))}
         if rng.random() < 0.2:
             k = rng.choice(KEYS)
-            f[k] = rng.choice([-1, {"ver": 8, "typ": 2, "shf": 2, "apid": 2048, "flags": 4, "seq": 16384}[k]])
+            f[k] = rng.choice([-1, {"ver": 8, "typ": 2, "shf": 2, "apid": 2048, "flags": 4, "seq": 16384}[k], 65536 + f[k], 2 ** 20, -65536,
+                               (1 << rng.randint(12, 29)) + f[k]])
         n = rng.choice([1, 2, 17, 255, 256, 1000, 65535, 65536]) if rng.random() < 0.9 else rng.choice([0, 65537])
         ok, h, acc, fr, exc = create(packets, f, n)
         lines.append({"kind": "create", "f": f, "n": n, "ok": ok, "h": h, "acc": acc, "fr": fr, "size": 0})
